@@ -23,7 +23,9 @@
 //     translated as a function of its free variables: the receiver (if its struct is listed), the function's
 //     scalar parameters, the scalars named in "params" (loop variables, outer locals), and one Int parameter
 //     per distinct array/slice element expression that the body reads or writes (a[i] -> a_i); the result is
-//     the tuple of the elements the body stores to, in order of first store. `continue`/`break`, nested
+//     the tuple of the elements the body stores to, in order of first store.  With "slice": [names] only the
+//     statements assigning those scalars are kept (calls and other locals are dropped, `if`s that still contain
+//     something keep their condition) and the result is the tuple of their final values. `continue`/`break`, nested
 //     loops and calls outside the translated set remain hard errors.
 //
 // No loops (other than the above), no slices, no interfaces.
@@ -53,6 +55,8 @@ type FuncSpec struct {
 	Mode   string   `json:"mode"`   // "" | "prefix" | "loop"
 	Loop   int      `json:"loop"`   // loop mode: index of the for/range statement (pre-order)
 	Params []string `json:"params"` // loop mode: extra scalar parameters (Int)
+	Slice  []string `json:"slice"`  // loop mode: keep only the statements that assign these scalars (and the ifs /
+	//                                  branch statements around them); the result is the tuple of their final values
 	Pre    bool     `json:"pre"`    // loop mode: the loop is a top-level statement; the statements before it
 	//                                  (array declarations excepted) are translated in front of the body
 }
@@ -953,6 +957,60 @@ func writesRecv(fd *ast.FuncDecl, recv string) bool {
 	return w
 }
 
+// sliceStmts keeps the statements that assign one of the sliced scalars, the `if`s that (after slicing) still
+// contain something, and every branch statement / nested loop (which translateLoop then rejects loudly).
+func sliceStmts(stmts []ast.Stmt, keep map[string]bool) []ast.Stmt {
+	var out []ast.Stmt
+	isKept := func(e ast.Expr) bool {
+		id, ok := e.(*ast.Ident)
+		return ok && keep[id.Name]
+	}
+	for _, st := range stmts {
+		switch x := st.(type) {
+		case *ast.ExprStmt:
+			// calls cannot assign a scalar local
+		case *ast.AssignStmt:
+			for _, l := range x.Lhs {
+				if isKept(l) {
+					out = append(out, st)
+					break
+				}
+			}
+		case *ast.IncDecStmt:
+			if isKept(x.X) {
+				out = append(out, st)
+			}
+		case *ast.DeclStmt:
+			// declarations of other locals are dropped
+		case *ast.BlockStmt:
+			out = append(out, sliceStmts(x.List, keep)...)
+		case *ast.IfStmt:
+			body := sliceStmts(x.Body.List, keep)
+			var els []ast.Stmt
+			switch e := x.Else.(type) {
+			case *ast.BlockStmt:
+				els = sliceStmts(e.List, keep)
+			case *ast.IfStmt:
+				els = sliceStmts([]ast.Stmt{e}, keep)
+			}
+			if len(body) == 0 && len(els) == 0 {
+				continue
+			}
+			c := *x
+			c.Body = &ast.BlockStmt{List: body}
+			if len(els) > 0 {
+				c.Else = &ast.BlockStmt{List: els}
+			} else {
+				c.Else = nil
+			}
+			out = append(out, &c)
+		default:
+			out = append(out, st) // branch statements, loops, switches: kept, rejected later if unsupported
+		}
+	}
+	return out
+}
+
 // translateLoop: see "loop" mode in the header comment.
 func (g *gen) translateLoop(fs FuncSpec) string {
 	fd := g.funcs[fs.Go]
@@ -1021,6 +1079,13 @@ func (g *gen) translateLoop(fs FuncSpec) string {
 		}
 		body = append(pre, body...)
 	}
+	if len(fs.Slice) > 0 {
+		keep := map[string]bool{}
+		for _, n := range fs.Slice {
+			keep[n] = true
+		}
+		body = sliceStmts(body, keep)
+	}
 	run := func(fin string) (*tr, []string, string) {
 		t := &tr{g: g, env: map[string]string{}, extraSet: map[string]bool{}, fn: fs.Go + "#loop", loop: true}
 		params := []string{}
@@ -1067,6 +1132,9 @@ func (g *gen) translateLoop(fs FuncSpec) string {
 		return t, params, txt
 	}
 	t1, _, _ := run("()")
+	if len(fs.Slice) > 0 {
+		t1.stored = append([]string{}, fs.Slice...)
+	}
 	if len(t1.stored) == 0 {
 		panic(unsupported{fs.Go + ": loop body stores to no element"})
 	}
